@@ -3,6 +3,7 @@ package syncworld
 import (
 	"fmt"
 	"sort"
+	"strings"
 	"testing/synctest"
 
 	"github.com/NethermindEth/juno/core"
@@ -45,7 +46,7 @@ func (w *world) observeChain() {
 		storedNow = w.checkStored(uint64(height))
 		wantReorg = w.revertRun
 		w.revertRun = nil
-		w.local = append(w.local, stored{b: storedNow, step: w.step - 1})
+		w.local = append(w.local, stored{b: storedNow, step: w.step - 1, fetched: w.firstDelivery(storedNow)})
 		w.storesN++
 		w.logf("obs: node stored block %d %s", height, short(storedNow.B.Hash))
 		if len(wantReorg) > 0 {
@@ -61,6 +62,7 @@ func (w *world) observeChain() {
 			c.Fail("revert_wrong_head", "head_after_revert", "after reverting block %d the head is %s, expected %s", prev, short(hash), short(w.local[height].b.B.Hash))
 		}
 		w.revertRun = append(w.revertRun, x.b)
+		w.lastGone[x.b] = w.step - 1
 		w.revertsN++
 		w.logf("obs: node reverted block %d %s", prev, short(x.b.B.Hash))
 		if height < 0 {
@@ -193,10 +195,25 @@ func (w *world) checkStored(n uint64) *chaingen.Block {
 	return m
 }
 
+// firstDelivery is the step of the earliest delivery of block m to the node since the node last
+// lost it.
+func (w *world) firstDelivery(m *chaingen.Block) int {
+	for _, d := range w.deliveries {
+		if d.blk == m && d.step >= w.lastGone[m] {
+			return d.step
+		}
+	}
+	return w.step - 1
+}
+
 // checkRevertJustified: I3. A revert of X is in order when the source's chain no longer contains X
-// (at the time the revert is committed), or when a response delivered to the node after X was
-// stored was taken from a chain version that does not contain X (a stale or flapping latest header,
-// a block of another fork).
+// (at the time the revert is committed), or when the node was told so: a response taken from a chain
+// version that does not contain X (a stale or flapping latest header, a block of another fork, a
+// block of the chain as it was before a reorg) was delivered to it after X itself was. Because the
+// pipeline fetches ahead of the store, "after X was stored" is counted from the delivery of X, not
+// from its commit: a conflicting successor that arrives between the two is newer information than X.
+// A revert that only an OLDER response explains (the node preferred what it was told first over
+// what it was told last, although the source still has X) is reported under its own key.
 func (w *world) checkRevertJustified(x stored) {
 	c := w.c
 	if !w.cur.has(x.b) {
@@ -204,7 +221,7 @@ func (w *world) checkRevertJustified(x stored) {
 		return
 	}
 	for _, d := range w.deliveries {
-		if d.step > x.step && !d.ver.has(x.b) {
+		if d.step > x.fetched && !d.ver.has(x.b) {
 			c.Probe("revert_excused_by_response")
 			return
 		}
@@ -212,15 +229,22 @@ func (w *world) checkRevertJustified(x stored) {
 	n := int(x.b.B.Number)
 	key := "no_contradicting_response"
 	for _, d := range w.deliveries {
-		if d.step > x.step {
+		if d.step > x.fetched {
 			continue
 		}
 		if (d.kind == "block" && n < len(d.ver.chain) && d.ver.chain[n] != x.b) || (d.kind == "latest" && d.note != "" && !d.ver.has(x.b)) {
-			key = "contradicted_only_by_response_delivered_before_store"
+			note := d.note
+			if note == "" {
+				note = "truthful_when_sent"
+			}
+			if i := strings.Index(note, ":"); i >= 0 {
+				note = note[:i]
+			}
+			key = "contradicted_only_by_older_response:" + note
 		}
 	}
-	c.Fail("unjustified_revert", key, "node reverted block %d %s (stored at step %d) although the source's current chain v%d contains it and no response delivered since it was stored came from a chain version without it",
-		n, short(x.b.B.Hash), x.step, w.cur.id)
+	c.Fail("unjustified_revert", key, "node reverted block %d %s (delivered to it at step %d, stored at step %d) although the source's current chain v%d contains it and no response delivered after it came from a chain version without it",
+		n, short(x.b.B.Hash), x.fetched, x.step, w.cur.id)
 }
 
 func (w *world) c06Options(ps []*req) []option {
